@@ -23,6 +23,15 @@ fn is_boundary_suffix(input: &str, out: &str) -> bool {
     let i = input.len() - out.len();
     i == 0 || input.as_bytes()[i - 1] == b'.'
 }
+/// names judged by equality with the reference: canonical ones, and ASCII names that differ from
+/// canonical ones in letter case only (matched byte-wise, like everything else)
+fn compare_of(name: &str) -> bool {
+    canonical(name) || (Psl::well_formed(name) && name.bytes().all(|b| b.is_ascii_alphanumeric() || b == b'-' || b == b'.') && name.bytes().any(|b| b.is_ascii_uppercase()) && cased_marker(name))
+}
+/// the case-variant family is recognisable by its shape (used by replay): at most one label has upper-case letters
+fn cased_marker(name: &str) -> bool {
+    name.split('.').filter(|l| l.bytes().any(|b| b.is_ascii_uppercase())).count() == 1
+}
 fn canonical(name: &str) -> bool {
     Psl::well_formed(name) && name.bytes().all(|b| b.is_ascii_lowercase() || b.is_ascii_digit() || b == b'-' || b == b'.')
 }
@@ -482,6 +491,37 @@ pub fn run(ctx: &Ctx) -> Result<Run, String> {
             }
         }
     }
+    // case variants: the lookup is byte-wise (callers pass lower case); a label that differs from a
+    // rule's label in letter case is simply another label.  Every rule body with one label at a
+    // time capitalised (first letter / whole label), bare and below two further labels, compared
+    // with the reference matcher on the labels as given.
+    let mut cased: Vec<String> = vec![];
+    for r in &psl.rules {
+        let body = r.trim_start_matches('!').trim_start_matches("*.");
+        if !body.is_ascii() {
+            continue;
+        }
+        let labels: Vec<&str> = body.split('.').collect();
+        for i in 0..labels.len() {
+            for whole in [false, true] {
+                let mut l: Vec<String> = labels.iter().map(|x| x.to_string()).collect();
+                l[i] = if whole { l[i].to_ascii_uppercase() } else { format!("{}{}", l[i][..1].to_ascii_uppercase(), &l[i][1..]) };
+                if l[i] == labels[i] {
+                    continue;
+                }
+                let name = l.join(".");
+                cased.push(format!("www.example.{name}"));
+                cased.push(name);
+            }
+        }
+    }
+    let cst = par::sweep_cases(&cased, ctx.threads, |n, st| {
+        let (fs, class, nt) = eval_name(&psl, n, compare_of(n));
+        st.case(n, nt, class);
+        st.findings_from(fs);
+    });
+    stats.count("case_variant_names", cased.len() as u64);
+    stats.merge(cst);
     let st = par::sweep_cases(&odd, ctx.threads, |n, st| {
         let canon = canonical(n);
         let (fs, class, nt) = eval_name(&psl, n, canon);
@@ -493,7 +533,7 @@ pub fn run(ctx: &Ctx) -> Result<Run, String> {
     let rules = psl.rules.len();
     let mut run = Run::from_stats(
         "exploration",
-        "the set of rules read off the generated table itself equals the set of rules of public_suffix_list.dat (both directions); a second, hand-encoded table (com, corp, intra.corp, *.lab, !gate.lab, test) behind the same generic ListProvider, looked up before, between (every ordered pair default-name/tiny-name on one thread) and after the default-table lookups and compared with the reference matcher over its own rules; every rule of public_suffix_list.dat (A-label form; wildcards instantiated with two labels and their base, exceptions without '!') as-is, with its leading label removed/replaced and with 1..12 labels prepended, compared on public_suffix / effective_tld_plus_one / is_effective_tld with a textbook PSL matcher over the .dat file; half of those names again with Unicode labels prepended (label counts must agree); every rule with each of the 64 most frequent labels of the list (thorough: every distinct label of the list) and the labels of its 4 (8) neighbours in table order in front of it; for every rule an ordered sequence of five lookups on one thread whose names share labels at different levels (reversed rule, rule, repeated top label); plus all strings over {c,k,o,m,u,w,.,A,é} up to the stated length and every printable ASCII byte right after and right before each dot of six names of 8+ bytes; long/odd names incl. the three other IDNA label separators (U+3002, U+FF0E, U+FF61) in place of a dot of fixed and rule-derived names (structural checks always, equality for canonical lower-case ASCII names). Non-trivial = a canonical name whose prevailing rule is an explicit rule of the list",
+        "the set of rules read off the generated table itself equals the set of rules of public_suffix_list.dat (both directions); a second, hand-encoded table (com, corp, intra.corp, *.lab, !gate.lab, test) behind the same generic ListProvider, looked up before, between (every ordered pair default-name/tiny-name on one thread) and after the default-table lookups and compared with the reference matcher over its own rules; every rule of public_suffix_list.dat (A-label form; wildcards instantiated with two labels and their base, exceptions without '!') as-is, with its leading label removed/replaced and with 1..12 labels prepended, compared on public_suffix / effective_tld_plus_one / is_effective_tld with a textbook PSL matcher over the .dat file; half of those names again with Unicode labels prepended (label counts must agree); every rule with each of the 64 most frequent labels of the list (thorough: every distinct label of the list) and the labels of its 4 (8) neighbours in table order in front of it; for every rule an ordered sequence of five lookups on one thread whose names share labels at different levels (reversed rule, rule, repeated top label); plus all strings over {c,k,o,m,u,w,.,A,é} up to the stated length and every rule with one label at a time capitalised (first letter / whole label), bare and below two labels, compared with the reference matcher on the labels as given; every printable ASCII byte right after and right before each dot of six names of 8+ bytes; long/odd names incl. the three other IDNA label separators (U+3002, U+FF0E, U+FF61) in place of a dot of fixed and rule-derived names (structural checks always, equality for canonical lower-case ASCII names). Non-trivial = a canonical name whose prevailing rule is an explicit rule of the list",
         true,
         stats,
     );
@@ -531,7 +571,7 @@ pub fn replay(_ctx: &Ctx, case: &Value) -> Result<Vec<Finding>, String> {
     // on a fresh thread: first alone, then after the recorded earlier lookups
     std::thread::scope(|s| {
         s.spawn(|| {
-            let alone = eval_name(&psl, &name, canonical(&name)).0;
+            let alone = eval_name(&psl, &name, compare_of(&name)).0;
             if !alone.is_empty() || history.is_empty() {
                 return alone;
             }
@@ -547,9 +587,9 @@ pub fn replay(_ctx: &Ctx, case: &Value) -> Result<Vec<Finding>, String> {
         std::thread::scope(|s| {
             s.spawn(|| {
                 for h in &history {
-                    let _ = eval_name(&psl, h, canonical(h));
+                    let _ = eval_name(&psl, h, compare_of(h));
                 }
-                let mut fs = eval_name(&psl, &name, canonical(&name)).0;
+                let mut fs = eval_name(&psl, &name, compare_of(&name)).0;
                 for f in fs.iter_mut() {
                     f.detail = format!("{} - only after the earlier lookups {history:?} on the same thread (alone the answer is right: the lookup is not a pure function of its argument)", f.detail);
                 }
